@@ -164,6 +164,35 @@ def messages(rc):
         rc.fail(q, q.node, "a query must calibrate the tree first", construct="calibrate before query")
 
 
+@rule("C02.pruned", "queries run on the clique tree built at construction: a pruned (possibly disconnected) network never reaches to_junction_tree", floor=3)
+def pruned(rc):
+    """Premise (checked): clique trees reject cliques without a common variable (ClusterGraph.add_edge raises), so a DISCONNECTED network has
+    no junction tree.  Pruning for a query keeps the ancestral graph of the d-connected part, which falls apart whenever query and evidence
+    variables are a-priori independent.  Hence BeliefPropagation may build its clique tree only from the full model (in __init__); building it
+    from `self.model` after _prune_bayesian_model makes such queries raise."""
+    repo = rc.repo
+    ca = repo.func("pgmpy/models/ClusterGraph.py", "ClusterGraph.add_edge")
+    guard = any(isinstance(n, ast.Raise) for n in walk_no_nested(ca.node)) and "isdisjoint" in norm(ca.node, 5000)
+    rc.ob(f"premise: ClusterGraph.add_edge rejects cliques with an empty sepset: {guard}")
+    cls = repo.cls(EI, "BeliefPropagation")
+    for name, m in cls.methods.items():
+        if name == "__init__":
+            continue
+        prunes = [n.lineno for n in walk_no_nested(m.node) if isinstance(n, ast.Call) and call_name(n) == "_prune_bayesian_model"]
+        for n in walk_no_nested(m.node):
+            if isinstance(n, ast.Assign) and any(norm(t) == "self.junction_tree" for t in (x for tg in n.targets for x in (tg.elts if isinstance(tg, ast.Tuple) else [tg]))):
+                src = norm(n.value, 80)
+                from_pruned = bool(prunes) and n.lineno > min(prunes) and "self.model" in src
+                if guard and (from_pruned or "to_junction_tree" in src):
+                    rc.fail(m, n, f"BeliefPropagation.{name} re-builds the clique tree (`{norm(n, 80)}`)" + (" from the PRUNED network" if from_pruned else "") +
+                            ": the pruned ancestral graph can be disconnected (independent query/evidence variables), and a disconnected network has no junction tree — such queries raise",
+                            construct=f"{name} rebuilds junction tree")
+        rc.ob(f"BeliefPropagation.{name}: prune sites {len(prunes)}; clique tree left as built at construction")
+    init = cls.methods["__init__"]
+    if not any(isinstance(n, ast.Assign) and any(norm(t) == "self.junction_tree" for t in n.targets) for n in walk_no_nested(init.node)):
+        raise AnalysisError("BeliefPropagation.__init__: clique tree construction not found")
+
+
 @rule("C02.restore", "BeliefPropagation restores its model on every exit of a query (shared with C16.engine)", floor=2)
 def restore(rc):
     c16.engine(rc)
@@ -180,6 +209,9 @@ def defuse(rc):
     _sh.defuse_rule(rc, _sh.anchor_files("C02"))
 
 MUTANTS = [
+    dict(kind="break", name="bp-tree-from-pruned-network", file=EI, expect="C02.pruned",
+         old="                self.model, evidence = self._prune_bayesian_model(variables, evidence)\n            self._initialize_structures()\n\n            # Step 4: Run inference.",
+         new="                self.model, evidence = self._prune_bayesian_model(variables, evidence)\n                self.junction_tree = self.model.to_junction_tree()\n                self.clique_beliefs, self.sepset_beliefs = {}, {}\n            self._initialize_structures()\n\n            # Step 4: Run inference."),
     dict(kind="break", name="jt-bookkeeping-by-value", file=MN, expect="C02.multiplicity",
          old="        is_used = [False] * len(self.factors)\n", new="        is_used = {factor: False for factor in self.factors}\n"),
     dict(kind="break", name="jt-potential-without-names", file=MN, expect="C02.statenames",
